@@ -172,6 +172,8 @@ let ledger_line (tok : string array) : bool =
   | "odel" -> lrun (obj_destroy (getp lobj 1)); Hashtbl.remove lobj (h 1); add "0"; true
   | "va" when h 2 = -2 ->
     let (st, p) = lrun (va_create_plain_m (getp lobj 3)) in Hashtbl.replace lva (h 1) p; add (string_of_int (int_of_z st)); true
+  | "va" when h 2 = -4 ->
+    let (st, p) = lrun (va_create_bit_m (getp lobj 3)) in Hashtbl.replace lva (h 1) p; add (string_of_int (int_of_z st)); true
   | "vaget" ->
     let (st, p) = lrun (va_get_values_plain_m (getp lva 2)) in Hashtbl.replace lobj (h 1) p; add (string_of_int (int_of_z st)); true
   | "vadel" -> lrun (va_destroy (getp lva 1)); Hashtbl.remove lva (h 1); add "0"; true
